@@ -3,6 +3,7 @@ package fix
 import (
 	"fmt"
 	"os"
+	"runtime"
 	"sync/atomic"
 	"testing"
 
@@ -61,9 +62,11 @@ func Check(t *testing.T, sub string, n int, prop func(*rapid.T)) {
 	n = evid.SetChecks(n)
 	evid.Requested(sub, n)
 	var done atomic.Int64
+	baseline := runtime.NumGoroutine()
 	rapid.Check(t, func(rt *rapid.T) {
 		prop(rt)
 		done.Add(1)
+		leakAfterCase(rt, sub, baseline)
 	})
 	got := int(done.Load())
 	if got > n {
